@@ -1,5 +1,5 @@
 #!/bin/bash
-LOG=/verif/work/confirm_seeds${ROUND:-3}.log
+LOG=${CLOG:-/verif/work/confirm_seeds${ROUND:-3}.log}
 for s in "$@"; do
   R=${ROUND:-3}; W=/tmp/seed${R}_$s; O=/tmp/seed${R}_${s}_out
   echo "=== $s" >> $LOG
